@@ -23,6 +23,14 @@ def _int(v, d=-1):
         return d
 
 
+def _hex(v):
+    """decimal attribute -> lower-case hex string ("" when absent or not a number): wide values never enter TLC as integers"""
+    try:
+        return "%x" % int(v)
+    except Exception:
+        return ""
+
+
 def _oti(a):
     if "FEC-OTI-FEC-Encoding-ID" not in a and "FEC-OTI-Encoding-Symbol-Length" not in a:
         return {"k": "none"}
@@ -84,6 +92,7 @@ def parse_fdt(xml_text, toi2o, intern):
             files.append({
                 "toi": toi, "o": toi2o.get(toi, 0), "loc": intern(fa.get("Content-Location", "")),
                 "clen": _int(fa.get("Content-Length")), "tlen": _int(fa.get("Transfer-Length")),
+                "clenx": _hex(fa.get("Content-Length")), "tlenx": _hex(fa.get("Transfer-Length")),
                 "type": intern(fa.get("Content-Type", "")), "cenc": CENC.get(fa.get("Content-Encoding"), -1),
                 "md5": intern(fa.get("Content-MD5", "")), "oti": _oti(fa), "cache": cache,
                 "etag": intern(fa.get("File-ETag", "")), "groups": fgroups})
